@@ -43,7 +43,12 @@ META = {
             "scales of A and b over 2^-30..2^30, x0 kind, preconditioner kind and layout, tol, maxiter, b shape); sparse: "
             "(block grid 1..6, block dims 1..4, density ladder incl. 0 and 1, structured patterns, int / float data, "
             "dtype) + all 36 layout pairs; history: (solver kind, constructor arguments, 2..5 calls, order asc / desc / mixed, "
-            "per-call size, dtype, layout, conditioning) on ONE reused solver object + a fixed corner corpus.  A case is non-trivial when the system has at least 2 unknowns (sparse: at "
+            "per-call size, dtype, layout, b shape, view mode, conditioning; `inplace` = the caller's own tensors overwritten "
+            "between calls) on ONE reused solver object.  Every stream additionally draws: sizes beyond 40 / block dims "
+            "beyond 4, scales 2^+-100, argument view modes (slice / strided / transposed storage / expanded / aliased), "
+            "mixed-regime batches judged item by item against the single-item call, configured tolerances judged by the "
+            "truncated-SVD law.  A deterministic corner corpus (corner_cases, corner_histories, empty batches; 130+ cases) "
+            "runs first on every seed.  A case is non-trivial when the system has at least 2 unknowns (sparse: at "
             "least one stored block on each side) and distinct by its full discrete signature.",
     "trusted": [
         "torch.linalg.pinv / lstsq / cholesky_ex / cholesky_solve, torch.addmm and layout conversions (external kernels: "
